@@ -286,7 +286,7 @@ func reach(c *explore.Ctx, visit func(scope string, idx int64, st *state)) {
 			c.R.Evaluations--
 			c.R.Nontrivial--
 			c.ReplayScope = save
-			emit("R0-ZOO", idx, &state{desc: "ZOO " + z.name, bytes: z.bytes, n: int64(len(z.bytes)), want: z.want, mode: 1025, merged: true})
+			emit("R0-ZOO", idx, &state{desc: "ZOO " + z.name, bytes: z.bytes, n: int64(len(z.bytes)), want: z.want, mode: z.mode, merged: true})
 			if c.Replay {
 				c.ReplayScope = "ZOO"
 			}
